@@ -187,6 +187,7 @@ def generated(rng) -> list[tuple[Any, Any, str]]:
     from xdsl.ir.affine import AffineMap
 
     makers: list[tuple[str, Any]] = []
+    DYN = getattr(b, "DYNAMIC_INDEX", -1)
     fts = [b.f16, b.bf16, b.f32, b.f64, b.Float80Type(), b.Float128Type()]
     for v in special_floats():
         makers.append((f"FloatData({v!r})", lambda v=v: b.FloatData(v)))
@@ -211,7 +212,7 @@ def generated(rng) -> list[tuple[Any, Any, str]]:
     for vals in ([0], [1], [0, 1], [255], [-1], []):
         for t in (b.i8, b.i32, b.i64):
             makers.append((f"DenseArrayBase({t},{vals})", lambda vals=vals, t=t: b.DenseArrayBase.from_list(t, vals)))
-    for shape in ([], [1], [2, 3], [3, 2], [-1, 2]):
+    for shape in ([], [1], [2, 3], [3, 2], [DYN, 2]):
         for t in (b.f32, b.i32, b.IndexType()):
             makers.append((f"TensorType({t},{shape})", lambda shape=shape, t=t: b.TensorType(t, shape)))
             makers.append((f"MemRefType({t},{shape})", lambda shape=shape, t=t: b.MemRefType(t, shape)))
